@@ -76,6 +76,15 @@ pub enum Motif {
         /// enemy pawn that could capture en passant afterwards: 0 none, 1 left, 2 right, 3 both
         capturers: u8,
     },
+    /// Sixteen mobile men, both castling rights, two en-passant capturers: the positions where
+    /// the number of move batches is at its maximum.
+    Crowded {
+        black: bool,
+        ep_file: u8,
+        pawn_ranks: [u8; 8],
+        pieces: Vec<(u8, u8)>,
+        enemy_kf: u8,
+    },
     /// King near an edge with a few enemy pieces close by: mates and stalemates.
     Net {
         black: bool,
@@ -425,6 +434,41 @@ fn apply_motif(b: &mut Builder, m: &Motif, h: &mut Hints) {
                 b.put(f + 1, r4, Kind::P, them);
             }
         }
+        Motif::Crowded { black, ep_file, pawn_ranks, pieces, enemy_kf } => {
+            let us = side_of(*black);
+            let them = us.other();
+            h.stm = Some(us);
+            let br = us.back_rank();
+            let up = us.fwd();
+            b.put(4, br, Kind::K, us);
+            b.put(*enemy_kf as i32 % 8, them.back_rank(), Kind::K, them);
+            h.rights_fixed[us.idx()] = true;
+            for (wing, rf) in [(0usize, 7i32), (1usize, 0i32)] {
+                if b.put(rf, br, Kind::R, us) {
+                    h.rights.push((us, wing, rf as u8));
+                }
+            }
+            // the pawn that "just advanced two squares" and our two capturers beside it
+            let f = 1 + *ep_file as i32 % 6;
+            let r5 = br + 4 * up;
+            b.put(f, r5, Kind::P, them);
+            b.put(f - 1, r5, Kind::P, us);
+            b.put(f + 1, r5, Kind::P, us);
+            h.ep_file = Some(f as u8);
+            for file in 0..8i32 {
+                if file == f - 1 || file == f + 1 {
+                    continue;
+                }
+                b.put(file, br + up * (1 + pawn_ranks[file as usize] as i32 % 3), Kind::P, us);
+            }
+            let kinds = [Kind::N, Kind::N, Kind::B, Kind::B, Kind::Q];
+            for (i, &(ksel, ssel)) in pieces.iter().enumerate().take(5) {
+                let _ = ksel;
+                let file = ssel as i32 % 8;
+                let rank = br + up * (1 + (ssel as i32 / 8) % 4);
+                b.put(file, rank, kinds[i], us);
+            }
+        }
         Motif::Net { black, ksq, pieces, enemy_k } => {
             let us = side_of(*black);
             let them = us.other();
@@ -568,6 +612,8 @@ fn arb_motif() -> impl Strategy<Value = Motif> {
             .prop_map(|(black, ksq, pieces, enemy_k)| Motif::Net { black, ksq, pieces, enemy_k }),
         1 => (any::<bool>(), 0u8..8, 0u8..6, 0u8..5, 0u8..5, any::<bool>(), 0u8..4)
             .prop_map(|(black, file, dir, dk, ds, queen, capturers)| Motif::PreEp { black, file, dir, dk, ds, queen, capturers }),
+        1 => (any::<bool>(), 0u8..6, any::<[u8; 8]>(), vec((any::<u8>(), 0u8..32), 5), 0u8..8)
+            .prop_map(|(black, ep_file, pawn_ranks, pieces, enemy_kf)| Motif::Crowded { black, ep_file, pawn_ranks, pieces, enemy_kf }),
     ]
 }
 
